@@ -633,6 +633,7 @@ func checkCmd(p *propCfg, tier, repo string, writeEvidence bool) int {
 	os.MkdirAll(rdir, 0o755)
 	shrunk := 0
 	unreproduced := 0
+	hangCandidates := 0
 	seenKey := map[string]bool{}
 	for _, k := range keys {
 		cases := agg.byKey[k]
@@ -684,6 +685,13 @@ func checkCmd(p *propCfg, tier, repo string, writeEvidence bool) int {
 				// a race report without a frame of the code under test: the harness's own trouble
 				fmt.Fprintf(os.Stderr, "verifctl: the report names no function of the code under test:\n%s\n", tail(rt, 1800))
 			}
+			if strings.HasPrefix(k, "hang@") {
+				// the watchdog of an exploring worker is a wall-clock guess (no run finished for
+				// 45 s); on a busy machine a slow run looks like a hang.  A genuine hang
+				// reproduces in a fresh process (30 s for one case); this one did not.
+				hangCandidates++
+				continue
+			}
 			unreproduced++
 			continue
 		}
@@ -707,6 +715,9 @@ func checkCmd(p *propCfg, tier, repo string, writeEvidence bool) int {
 			}
 		}
 		reported = append(reported, rec)
+	}
+	if hangCandidates > 0 {
+		agg.probes["hang_candidate_not_reproduced_(slow_run_on_a_busy_machine)"] += hangCandidates
 	}
 	if unreproduced > 0 && exit == 0 {
 		// something was seen during exploration and nothing of it could be confirmed: machinery
